@@ -280,6 +280,26 @@ Theorem source_worthy_as_modelled :
 Proof. exact source_worthy_shape. Qed.
 Print Assumptions source_worthy_as_modelled.
 
+(** The store layout the id theorems rest on (translator, round 3): per prefix store of x/valset/keeper
+    its writers and deleters.  Under prefix "IDs" (snapshot id counter + jail log) and under "snapshot"
+    there is no deleter; the counter is written only by the id generator from setSnapshotAsCurrent; no
+    store operation of the package is left unresolved. *)
+Theorem source_stores_as_modelled :
+  Gen.C10.valset_stores =
+    ["[]byte(""IDs"") | ider | set: setSnapshotAsCurrent | delete: ";
+     "[]byte(""IDs"") | jailLog | set: Jail | delete: ";
+     "[]byte(""external-chain-info"") | _externalChainInfoStore | set:  | delete: ";
+     "[]byte(""grace-period"") | gracePeriodStore | set: UpdateGracePeriod | delete: ";
+     "[]byte(""jail-reasons"") | jailReasonStore | set: Jail | delete: TriggerSnapshotBuild";
+     "[]byte(""keep-alive/"") | keepAliveStore | set: KeepValidatorAlive | delete: ";
+     "[]byte(""snapshot"") | snapshotStore | set: SaveModifiedSnapshot,SetSnapshotOnChain,setSnapshotAsCurrent | delete: ";
+     "[]byte(""unjailed-snapshot"") | unjailedSnapshotStore | set: UpdateGracePeriod | delete: UpdateGracePeriod";
+     "_externalChainInfoStore+[]byte( fmt.Sprintf(""val-%s"", val.String()), ) | externalChainInfoStore | set: SetExternalChainInfoState | delete: ";
+     "types.PigeonStoreKey | pigeonStore | set: SetPigeonRequirements,SetScheduledPigeonRequirements | delete: SetPigeonRequirements"]%string /\
+  Gen.C10.valset_unresolved_store_ops = [].
+Proof. exact source_stores_shape. Qed.
+Print Assumptions source_stores_as_modelled.
+
 (** The float test of isNewSnapshotWorthy — the 18-decimal difference converted to the nearest
     binary64 and compared with the binary64 nearest to 0.01 — is exactly the integer test of the
     model, for every non-negative difference (Flocq; stdlib real-number axioms). *)
